@@ -21,7 +21,7 @@ func init() {
 }
 
 // string literals that are the first argument of fmt.Sprintf calls inside fn
-func sprintfFormats(fd *ast.FuncDecl) []string {
+func c12SprintfFormats(fd *ast.FuncDecl) []string {
 	var out []string
 	if fd == nil || fd.Body == nil {
 		return out
@@ -46,7 +46,7 @@ func sprintfFormats(fd *ast.FuncDecl) []string {
 func c12Facts(l *leanDefs) {
 	const file = "pkg/hook/hook.go"
 	var envs []string
-	for _, f := range sprintfFormats(findFunc(file, "Hook", "Run")) {
+	for _, f := range c12SprintfFormats(findFunc(file, "Hook", "Run")) {
 		if strings.HasSuffix(f, "=%s") {
 			envs = append(envs, strings.TrimSuffix(f, "=%s"))
 		}
@@ -54,7 +54,7 @@ func c12Facts(l *leanDefs) {
 	l.def("c12EnvVars", "List String", leanStrList(envs), file+" Hook.Run")
 	var names []string
 	for _, fn := range []string{"prepareBindingContextJsonFile", "prepareMetricsFile", "prepareAdmissionResponseFile", "prepareConversionResponseFile", "prepareObjectPatchFile"} {
-		fs := sprintfFormats(findFunc(file, "Hook", fn))
+		fs := c12SprintfFormats(findFunc(file, "Hook", fn))
 		if len(fs) == 1 {
 			names = append(names, fs[0])
 		} else {
